@@ -457,7 +457,7 @@ def r_src_route(model, rep):
             msg = "binary and source packages must both be filed under the binary architecture being read"
         if ok:
             items = b.loops[2]
-            sn = ("idx", ("elem", items[1], items[0]), 0)
+            sn = ("elem", items[1], items[0])
             # source lookup: payload[variant].get('src', {}).get(<same srpm key>, None)
             base = T.unwrap(lv[1])
             want = ("call", ("attr", ("call", ("attr", ("sub", lv[1], v), "get"), (("const", "src"), ("dict", ())), ()), "get"), (sn, ("const", None)), ())
@@ -473,7 +473,7 @@ def r_src_route(model, rep):
                     and s.value[2][3] == ("sub", srpm_data, ("const", "path")) and s.value[2][4] == ("sub", srpm_data, ("const", "sigkey"))
                 msg = "the source package must be re-added with its own path/sigkey and category 'source', exactly when it is present"
             if ok:
-                ok = b.value[2][6] == sn and b.value[2][2] == ("idx", ("elem", b.loops[3][1], b.loops[3][0]), 0)
+                ok = b.value[2][6] == sn and b.value[2][2] == ("elem", b.loops[3][1], b.loops[3][0])
                 msg = "binary packages must be added under their source package key"
     rep.ob("R-SRC-ROUTE", "Rpms.deserialize_0_3", ok, site=cx.site(f.node), msg="" if ok else msg)
 
